@@ -180,17 +180,49 @@ func (p *Prog) computeDerived() map[derivedKey]*Sym {
 			return false
 		}
 		virtualStr := ""
+		// the fields of the struct and of the private structs it nests to group them (canon.go)
+		type cand struct {
+			named *types.Named
+			st    *types.Struct
+			idx   int
+		}
+		var cands []cand
 		for i := 0; i < st.NumFields(); i++ {
-			if st.Field(i).Exported() || fieldName(types.NewPointer(d.Named), i) == "opts" {
+			if isHolderField(types.NewPointer(d.Named), i) {
+				if nn, isNamed := st.Field(i).Type().(*types.Named); isNamed {
+					if nst, isSt := nn.Underlying().(*types.Struct); isSt {
+						for j := 0; j < nst.NumFields(); j++ {
+							cands = append(cands, cand{nn.Origin(), nst, j})
+						}
+					}
+				}
 				continue
 			}
-			k := derivedKey{d.Named, i}
+			cands = append(cands, cand{d.Named, st, i})
+		}
+		for _, cd := range cands {
+			i := cd.idx
+			if cd.st.Field(i).Exported() || fieldName(types.NewPointer(cd.named), i) == "opts" {
+				continue
+			}
+			k := derivedKey{cd.named, i}
 			u := uses[k]
 			if u == nil || u.escapes || len(u.stores) != 1 || u.stores[0].Parent() != ctor {
 				continue
 			}
-			if fa := u.stores[0].Addr.(*ssa.FieldAddr); fa.X != ssa.Value(lit) {
-				continue
+			{
+				// stored into the literal (directly or into a nested grouping struct of it)
+				base := u.stores[0].Addr.(*ssa.FieldAddr).X
+				for {
+					inner, isFA := base.(*ssa.FieldAddr)
+					if !isFA {
+						break
+					}
+					base = inner.X
+				}
+				if base != ssa.Value(lit) {
+					continue
+				}
 			}
 			pure := true
 			usesOpts := false
@@ -281,7 +313,15 @@ func (p *Prog) derivedLoad(fa *ssa.FieldAddr) *Sym {
 	}
 	if fa.Parent() != nil {
 		// inside the constructor the literal is still being built
-		if _, isAl := fa.X.(*ssa.Alloc); isAl {
+		base := fa.X
+		for {
+			inner, isFA := base.(*ssa.FieldAddr)
+			if !isFA {
+				break
+			}
+			base = inner.X
+		}
+		if _, isAl := base.(*ssa.Alloc); isAl {
 			return nil
 		}
 	}
